@@ -205,7 +205,19 @@ def _inventory(out, prop, progs, tag):
     os.makedirs(work, exist_ok=True)
     dumps, errs = xrun.dump_expansions(work, progs)
     if errs:
-        raise xrun.Infra(f"corpus declarations for {prop} do not compile: " + json.dumps(errs)[:1200])
+        # a rule-valid corpus declaration that does not compile is C09's business (C09 compiles the whole corpus); so that it cannot
+        # hide the verdict on the other declarations, it is dropped from THIS check with a note and the rest is dumped again
+        bad = set(errs)
+        kept = [p for p in progs if p.pid not in bad]
+        if not kept or len(kept) == len(progs):
+            raise xrun.Infra(f"corpus declarations for {prop} do not compile: " + json.dumps(errs)[:1200])
+        out.notes.append(f"{len(bad)} corpus declaration group(s) rejected by rustc and left to C09: " + ", ".join(sorted(bad))
+                         + " -- " + json.dumps(errs)[:300])
+        out.extra.setdefault("declarations_rejected_by_rustc", []).extend(sorted(bad))
+        progs[:] = kept
+        dumps, errs = xrun.dump_expansions(work, progs)
+        if errs:
+            raise xrun.Infra(f"corpus declarations for {prop} do not compile: " + json.dumps(errs)[:1200])
     xrun.bind_rawnames(progs, dumps)
     ann = xrun.annotate(work, progs, dumps, {})
     return work, {t: a[1] for t, a in ann.items()}
